@@ -780,6 +780,25 @@ func dispatch(e *env, c Case, a, b, cc string) string {
 			return "reject" // the random package returns plain errors: any error is the documented rejection
 		}
 		return "ok"
+	case "RestoreChacha20PRGCounter":
+		cnt := map[string]uint64{"0": 0, "63": 63, "64": 64, "65": 65, "2^32-1": 1<<32 - 1, "2^32": 1 << 32, "2^32+63": 1<<32 + 63, "2^38-65": 1<<38 - 65,
+			"2^38-1": 1<<38 - 1, "2^38": 1 << 38, "2^38+1": 1<<38 + 1, "2^44": 1 << 44, "2^50": 1 << 50, "2^63": 1 << 63, "2^64-1": ^uint64(0)}[a]
+		st := make([]byte, 52)
+		e.rng.Read(st[:44])
+		for i := 0; i < 8; i++ {
+			st[44+i] = byte(cnt >> (8 * uint(i)))
+		}
+		g, err := random.RestoreChacha20PRG(st)
+		if err != nil {
+			return "reject"
+		}
+		if cnt < 1<<38-4096 { // inside the 256 GiB a ChaCha20 stream has: reading continues
+			buf := make([]byte, 200)
+			g.Read(buf)
+			_ = g.UintN(1000)
+		}
+		_ = g.Store()
+		return "ok"
 	case "RestoreChacha20PRG":
 		_, err := random.RestoreChacha20PRG(e.bytesOf(a, make([]byte, 52)))
 		if err != nil {
